@@ -24,14 +24,14 @@ extern "C" bool model_probeDTM(const TranspositionTable* tt, const Position& pos
 }
 extern "C" double model_currentTime() { return 0.0; }
 
-alignas(64) static unsigned char posmem[sizeof(Position)];
-alignas(64) static unsigned char ttmem[sizeof(TranspositionTable)];
+static RawBox<Position> posBox;
+static RawBox<TranspositionTable> ttBox;
 
 extern "C" {
 
 void h_tbprobe(void) {
-    Position& pos = *reinterpret_cast<Position*>(posmem);
-    const TranspositionTable& tt = *reinterpret_cast<TranspositionTable*>(ttmem);
+    Position& pos = posBox.obj;
+    const TranspositionTable& tt = ttBox.obj;
     int ply = nondet_int(), hmc = nondet_int(), alpha = nondet_int(), beta = nondet_int(), nPieces = (int)verif_param();   // case split: 2, 3, 4 men
     ASSUME(ply >= 0 && ply <= 200 && hmc >= 0 && hmc <= 99);
     ASSUME(alpha >= -32000 && alpha <= 32000 && beta >= -32000 && beta <= 32000 && alpha < beta);
